@@ -156,7 +156,22 @@ Definition cur_below (n : node) : Z :=
 Definition min_below (n : node) : Z :=
   match n with NCreate _ c => 1 + i_min (ninfo c) | _ => i_min (ninfo n) end.
 
-(** dr_prune_nodes_norec *)
+(** dr_prune_nodes_norec: the loop over the children of a section / task that is being pruned.
+    [bl] = budget_left, [nl] = nodes_left; each child gets a share of the remaining budget
+    proportional to its current size (C long division truncates: [Z.quot]) *)
+Section PruneList.
+  Variable P : Z -> node -> node.
+  Fixpoint prune_list (bl nl : Z) (l : list node) {struct l} : list node * Z :=
+    match l with
+    | [] => ([], bl)
+    | x :: r =>
+        let nodes_ch := cur_below x in
+        let x' := P (Z.quot (bl * nodes_ch) nl) x in
+        let res := prune_list (bl - cur_below x') (nl - nodes_ch) r in
+        (x' :: fst res, snd res)
+    end.
+End PruneList.
+
 Fixpoint prune (budget : Z) (n : node) {struct n} : node :=
   match n with
   | NLeaf _ => n
@@ -167,16 +182,7 @@ Fixpoint prune (budget : Z) (n : node) {struct n} : node :=
       else if (budget <? zsum (map min_below ch) + 1) && (i_min i =? 1)
       then NSub (set_cur i 1) []                   (* just collapsed *)
       else
-        let fix go (bl nl : Z) (l : list node) {struct l} : list node * Z :=
-            match l with
-            | [] => ([], bl)
-            | x :: r =>
-                let nodes_ch := cur_below x in
-                let x' := prune (Z.quot (bl * nodes_ch) nl) x in
-                let res := go (bl - cur_below x') (nl - nodes_ch) r in
-                (x' :: fst res, snd res)
-            end in
-        let res := go (budget - 1) (i_cur i - 1) ch in
+        let res := prune_list prune (budget - 1) (i_cur i - 1) ch in
         NSub (set_cur i (budget - snd res)) (fst res)
   end.
 
@@ -204,6 +210,16 @@ Definition summarize (st : setting) (n : node) : node :=
 
 (** the over-approximated policy as a function: [sel] says which subgraphs (addressed by
     their position below the node just closed) are replaced by their summary *)
+Section ContractList.
+  Variable C : list nat -> node -> node.
+  Variable rel : list nat.
+  Fixpoint contract_list (k : nat) (l : list node) {struct l} : list node :=
+    match l with
+    | [] => []
+    | x :: r => C (rel ++ [k]) x :: contract_list (S k) r
+    end.
+End ContractList.
+
 Section Contract.
   Variable sel : list nat -> bool.
   Fixpoint contract (rel : list nat) (n : node) {struct n} : node :=
@@ -213,12 +229,7 @@ Section Contract.
     | NSub i ch =>
         if sel rel then NSub (set_cur i 1) []
         else
-          let fix go (k : nat) (l : list node) {struct l} : list node :=
-              match l with
-              | [] => []
-              | x :: r => contract (rel ++ [k]) x :: go (S k) r
-              end in
-          let ch' := go 0%nat ch in
+          let ch' := contract_list contract rel 0%nat ch in
           NSub (set_cur i (1 + zsum (map cur_below ch'))) ch'
     end.
 End Contract.
@@ -311,6 +322,21 @@ Definition sect_create_edges (x : node) : ecounts :=
     nodes plus the edges enumerated by dr_dump.c dr_pi_dag_enum_edges on what is materialised.
     [fe = false]: the tree as found; [fe = true]: with the proposed repair (a contracted section
     also contributes the end edges of the tasks created in it, which lead to its successor). *)
+Section StatList.
+  Variable E : node -> ecounts.
+  Fixpoint stat_edges_list (l : list node) {struct l} : ecounts :=
+    match l with
+    | [] => ec_zero
+    | x :: r =>
+        ec_add (ec_add (E x)
+                       (match r with
+                        | [] => ec_zero
+                        | _ => ec_add (cont_edge x) (sect_create_edges x)
+                        end))
+               (stat_edges_list r)
+    end.
+End StatList.
+
 Section Stat.
   Variable fe : bool.
   Fixpoint stat_edges (n : node) {struct n} : ecounts :=
@@ -322,18 +348,6 @@ Section Stat.
         | KSection => if fe then ec_add (i_edges i) (mkEC (i_nchild i) 0 0 0 0) else i_edges i
         | _ => i_edges i
         end
-    | NSub i ch =>
-        let fix go (l : list node) {struct l} : ecounts :=
-            match l with
-            | [] => ec_zero
-            | x :: r =>
-                ec_add (ec_add (stat_edges x)
-                               (match r with
-                                | [] => ec_zero
-                                | _ => ec_add (cont_edge x) (sect_create_edges x)
-                                end))
-                       (go r)
-            end in
-        go ch
+    | NSub i ch => stat_edges_list stat_edges ch
     end.
 End Stat.
